@@ -28,7 +28,12 @@ impl LuaGlobalIndex {
 
     pub fn add_global_decl(&mut self, name: &str, decl_id: LuaDeclId) {
         let id = GlobalId::new(name);
-        self.global_decl.entry(id).or_default().push(decl_id);
+        // keep the declarations in (file id, position) order, so that "first/last declaration
+        // wins" does not depend on which file was (re)analysed last
+        let decls = self.global_decl.entry(id).or_default();
+        let pos = decls
+            .partition_point(|d| (d.file_id, d.position) < (decl_id.file_id, decl_id.position));
+        decls.insert(pos, decl_id);
     }
 
     pub fn get_all_global_decl_ids(&self) -> Vec<LuaDeclId> {
